@@ -235,6 +235,24 @@ fn check_progress(input: &str, t: &Trace, nones: usize) -> Option<(String, Strin
     if first_none > n + 1 {
         return Some(("more than n+1 items".into(), format!("<= {}", n + 1), format!("{first_none}")));
     }
+    // every item accounts for at least one input character or for the single end-of-input event:
+    // the position the lexer has reached never moves backwards, and stands still at most once
+    let mut pos = 0usize;
+    let mut stalls = 0usize;
+    for (k, s) in t[..first_none].iter().enumerate() {
+        if let Some((_, pe, _)) = &s.probe {
+            if pe.byte_idx < pos {
+                return Some((format!("call {k}: the lexer went back in the input (position {} after position {pos})", pe.byte_idx), "positions never decrease".into(), format!("{:?}", s.item)));
+            }
+            if pe.byte_idx == pos {
+                stalls += 1;
+                if stalls > 1 {
+                    return Some((format!("call {k}: a second item that accounts for no input character"), "at most one end-of-input event".into(), format!("{:?}", s.item)));
+                }
+            }
+            pos = pe.byte_idx;
+        }
+    }
     let actions: usize = t.iter().map(|s| s.events.len()).sum();
     if actions > n + 1 {
         return Some(("more than n+1 action invocations".into(), format!("<= {}", n + 1), format!("{actions}")));
@@ -416,6 +434,7 @@ fn replay_on_m(l: &LexerUnderTest, input: &str, script: &[u8], has_str: bool, t:
 }
 
 struct Explorer<'a, 'b> {
+    slot: Option<usize>,
     plan: &'a Plan,
     l: &'a LexerUnderTest<'b>,
     idx: usize,
@@ -435,6 +454,9 @@ impl Explorer<'_, '_> {
     }
 
     fn run_one(&mut self, input: &str, script: &[u8], ctor: u8) -> Trace {
+        if let Some(slot) = self.slot {
+            CURRENT.lock().unwrap()[slot] = Some((self.idx, input.to_string(), script.to_vec(), now_ms()));
+        }
         let args = RunArgs { input, script, ctor, probes: true, nones: 3, no_text: input.len() > 64, split: 0 };
         let (t, _, _) = (self.l.runner)(&args, &Mode::Plain);
         self.c.executions += 1;
@@ -454,6 +476,15 @@ impl Explorer<'_, '_> {
             Proj::Locs => {
                 if let Some(v) = check_locs(input, &t) {
                     self.viol(input, script, ctor0, v);
+                } else if let Some(v) = compare(Proj::Tokens, self.l.spec, input, script, has_str(ctor0), &t, &mut self.c) {
+                    // "input[start..end] is exactly the matched lexeme": spans against the reference
+                    self.viol(input, script, ctor0, v);
+                }
+                for &ctor in &plan.ctors[1..] {
+                    let t2 = self.run_one(input, script, ctor);
+                    if let Some(v) = check_locs(input, &t2) {
+                        self.viol(input, script, ctor, v);
+                    }
                 }
             }
             Proj::Progress => {
@@ -725,6 +756,32 @@ pub fn all_inputs(plan: &Plan) -> Vec<String> {
     v
 }
 
+/// What each worker thread is executing right now (for the watchdog): (lexer, input, script, since ms).
+static CURRENT: Mutex<Vec<Option<(usize, String, Vec<u8>, u64)>>> = Mutex::new(Vec::new());
+
+fn now_ms() -> u64 {
+    static T0: std::sync::OnceLock<std::time::Instant> = std::sync::OnceLock::new();
+    T0.get_or_init(std::time::Instant::now).elapsed().as_millis() as u64
+}
+
+/// A `next()` call that does not return is an observation, not a harness failure: a watchdog
+/// thread prints which execution is stuck (as JSON on stdout) and ends the process with code 3.
+fn start_watchdog(limit_ms: u64) {
+    static STARTED: std::sync::Once = std::sync::Once::new();
+    STARTED.call_once(|| {
+        std::thread::spawn(move || loop {
+            std::thread::sleep(std::time::Duration::from_millis(500));
+            let g = CURRENT.lock().unwrap();
+            for slot in g.iter().flatten() {
+                if now_ms().saturating_sub(slot.3) > limit_ms {
+                    println!("{}", json!({"hang": {"lexer": slot.0, "input": slot.1.chars().take(200).collect::<String>(), "input_len": slot.1.len(), "script_raw": slot.2}}));
+                    std::process::exit(3);
+                }
+            }
+        });
+    });
+}
+
 pub fn run_batch(plan: &Plan, lexers: &[LexerUnderTest], first_idx: usize, threads: usize) -> BatchReport {
     // targeted replay: a single input and script given through the environment
     let replay: Option<(String, Vec<u8>)> = std::env::var("VERIF_REPLAY_INPUT").ok().map(|i| {
@@ -740,15 +797,29 @@ pub fn run_batch(plan: &Plan, lexers: &[LexerUnderTest], first_idx: usize, threa
     let agg: Mutex<(Counters, Vec<Violation>, Vec<String>, Vec<Value>)> = Mutex::new((Counters::default(), vec![], vec![], vec![]));
     // silence panic messages of explored lexers (they are observations)
     std::panic::set_hook(Box::new(|_| {}));
+    {
+        let mut g = CURRENT.lock().unwrap();
+        g.clear();
+        g.resize(threads.max(1), None);
+    }
+    start_watchdog(std::env::var("VERIF_HANG_MS").ok().and_then(|s| s.parse().ok()).unwrap_or(20_000));
+    let slot_counter = AtomicUsize::new(0);
     std::thread::scope(|s| {
         for _ in 0..threads.max(1) {
             s.spawn(|| loop {
+                thread_local! { static SLOT: std::cell::Cell<usize> = std::cell::Cell::new(usize::MAX); }
+                if SLOT.with(|s| s.get()) == usize::MAX {
+                    SLOT.with(|s| s.set(slot_counter.fetch_add(1, Ordering::SeqCst)));
+                }
+                let slot = SLOT.with(|s| s.get());
                 let i = next.fetch_add(1, Ordering::SeqCst);
                 if i >= lexers.len() {
+                    CURRENT.lock().unwrap()[slot] = None;
                     break;
                 }
                 let l = &lexers[i];
                 let mut ex = Explorer {
+                    slot: Some(slot),
                     plan,
                     l,
                     idx: first_idx + i,
